@@ -14,9 +14,9 @@ Section Models.
       [gg = Re<dg,dg>] ([num]), [xg = Re<dx,dg>] ([den]), as computed by the code.
 <<
       L = num / den
-      if snp.isnan(L) or L <= 0.0:  L = self.pgm.L
+      if not snp.isfinite(L) or L <= 0.0:  L = self.pgm.L
 >> *)
-  Definition bb_reject (L : xr) : bool := xisnan L || xle0 L.
+  Definition bb_reject (L : xr) : bool := negb (xisfinite L) || xle0 L.
   Definition bb_update (pgmL : xr) (first : bool) (gg xg : xr) : xr :=
     if first then pgmL
     else let L := xdiv gg xg in if bb_reject L then pgmL else L.
@@ -37,6 +37,79 @@ Section Models.
                | _, _ => pgmL
                end in
       (L, (Lbb1, Lbb2)).
+
+  (** ** The stored previous point.  [P] stands for (point, gradient at that point); the inner
+      products the code forms are functions of the STORED point and the CURRENT argument:
+<<
+      if self.xprev is None:  self.xprev = v; self.gradprev = grad(v); L = self.pgm.L
+      else:  dx = v - self.xprev; dg = grad(v) - self.gradprev; ... (as above) ...
+             self.xprev = v; self.gradprev = gradv        # unconditionally
+>> *)
+  Section Memory.
+    Variable P : Type.
+    Variables ipxx ipxg ipgg : P -> P -> xr.   (* Re<dx,dx>, Re<dx,dg>, Re<dg,dg> of (stored, current) *)
+
+    Definition bb_step (pgmL : xr) (mem : option P) (cur : P) : xr * option P :=
+      match mem with
+      | None => (bb_update pgmL true NaN NaN, Some cur)
+      | Some p => (bb_update pgmL false (ipgg p cur) (ipxg p cur), Some cur)
+      end.
+
+    Definition abb_step (kappa : K) (pgmL : xr) (mem : option P) (m : abb_mem) (cur : P)
+      : xr * (option P * abb_mem) :=
+      match mem with
+      | None => let '(L, m') := abb_update kappa pgmL true m NaN NaN NaN in (L, (Some cur, m'))
+      | Some p => let '(L, m') := abb_update kappa pgmL false m (ipxx p cur) (ipxg p cur) (ipgg p cur) in
+                  (L, (Some cur, m'))
+      end.
+
+    (** after ANY update (first call, accepted ratio or fall-back) the memory is the current argument *)
+    Theorem bb_step_memory pgmL mem cur : snd (bb_step pgmL mem cur) = Some cur.
+    Proof. destruct mem; reflexivity. Qed.
+    Theorem abb_step_memory kappa pgmL mem m cur : fst (snd (abb_step kappa pgmL mem m cur)) = Some cur.
+    Proof.
+      destruct mem; cbn.
+      - destruct (abb_update kappa pgmL false m (ipxx p cur) (ipxg p cur) (ipgg p cur)); reflexivity.
+      - reflexivity.
+    Qed.
+
+    (** a whole run (pgm.L := returned L after every step): the list of returned L *)
+    Fixpoint bb_run (pgmL : xr) (mem : option P) (vs : list P) : list xr :=
+      match vs with
+      | [] => []
+      | v :: r => let '(L, m') := bb_step pgmL mem v in L :: bb_run L m' r
+      end.
+
+    (** every L after the first is formed from the differences between the current argument
+        and the IMMEDIATELY PRECEDING one, whatever happened before *)
+    Theorem bb_run_consecutive pgmL mem u v r :
+      bb_run pgmL mem (u :: v :: r) =
+      let L0 := fst (bb_step pgmL mem u) in
+      let L1 := bb_update L0 false (ipgg u v) (ipxg u v) in
+      L0 :: L1 :: bb_run L1 (Some v) r.
+    Proof. destruct mem; reflexivity. Qed.
+
+    Fixpoint abb_run (kappa : K) (pgmL : xr) (mem : option P) (m : abb_mem) (vs : list P) : list xr :=
+      match vs with
+      | [] => []
+      | v :: r => let '(L, (mem', m')) := abb_step kappa pgmL mem m v in L :: abb_run kappa L mem' m' r
+      end.
+
+    Theorem abb_run_consecutive kappa pgmL mem m u v r :
+      abb_run kappa pgmL mem m (u :: v :: r) =
+      let '(L0, (_, m0)) := abb_step kappa pgmL mem m u in
+      let '(L1, m1) := abb_update kappa L0 false m0 (ipxx u v) (ipxg u v) (ipgg u v) in
+      L0 :: L1 :: abb_run kappa L1 (Some v) m1 r.
+    Proof.
+      destruct mem as [p|]; cbn [abb_run abb_step].
+      - destruct (abb_update kappa pgmL false m (ipxx p u) (ipxg p u) (ipgg p u)) as [L0 m0].
+        cbn [abb_run abb_step].
+        destruct (abb_update kappa L0 false m0 (ipxx u v) (ipxg u v) (ipgg u v)) as [L1 m1]. reflexivity.
+      - destruct (abb_update kappa pgmL true m NaN NaN NaN) as [L0 m0].
+        cbn [abb_run abb_step].
+        destruct (abb_update kappa L0 false m0 (ipxx u v) (ipxg u v) (ipgg u v)) as [L1 m1]. reflexivity.
+    Qed.
+  End Memory.
 
   (** ** LineSearchStepSize.update
 <<
